@@ -51,7 +51,9 @@ namespace foonathan
                 {
                     auto actual_size = size + (debug_fence_size ? 2 * max_alignment : 0u);
 
-                    auto memory = Functor::allocate(actual_size, alignment);
+                    // actual_size < size: adding the fences wrapped around
+                    auto memory =
+                        actual_size < size ? nullptr : Functor::allocate(actual_size, alignment);
                     if (!memory)
                         FOONATHAN_THROW(out_of_memory(Functor::info(), actual_size));
 
